@@ -11,12 +11,16 @@ pub mod c10;
 pub mod c11;
 pub mod c12;
 pub mod c13;
+pub mod c13_sim;
 pub mod c14;
 pub mod c15;
 pub mod c16;
+pub mod c17;
+pub mod c18;
 pub mod c19;
 pub mod c07;
 pub mod c20;
+pub mod c20_events;
 
 pub fn property(id: &str, tier: Tier) -> Option<Property> {
     Some(match id {
@@ -28,6 +32,8 @@ pub fn property(id: &str, tier: Tier) -> Option<Property> {
         "C08" => c08::property(tier),
         "C09" => c09::property(tier),
         "C10" => c10::property(tier),
+        "C17" => c17::property(tier),
+        "C18" => c18::property(tier),
         "C19" => c19::property(tier),
         "C11" => c11::property(tier),
         "C13" => c13::property(tier),
